@@ -207,7 +207,8 @@ def run(ctx):
             pathattr = "id"
             if (r // 24) % 2 == 0:
                 # int-valued path attribute, compared as str(value); 0 is a falsy value whose string form is a perfectly good component
-                names = list(range(0, n)) if (r // 48) % 2 == 0 else list(range(100, 100 + n))
+                # (the falsy values go to the last nodes, which are never the root)
+                names = (list(range(2, n)) + [0.0, 0][-min(n, 2):] if n > 1 else [0]) if (r // 48) % 2 == 0 else list(range(100, 100 + n))
                 ctx.count("C07.int_valued_pathattr")
         if r % 11 == 5 and kind in ("Node", "AnyNode") and sep not in "(),' ":
             # non-string path attributes (tuples): compared as str(value); they also appear in error messages
